@@ -239,6 +239,25 @@ func (c *Ctx) condsAt(fd *ast.FuncDecl, target ast.Node) []condLit {
 				stack = append(stack, condLit{ifs.Cond, true})
 				pushed++
 			}
+			// if c { ...leaves } else { ...falls through }: afterwards !c holds
+			if ifs, ok := s.(*ast.IfStmt); ok && ifs.Else != nil && blockAlwaysLeaves(ifs.Body) {
+				if eb, ok := ifs.Else.(*ast.BlockStmt); ok && !blockAlwaysLeaves(eb) {
+					stack = append(stack, condLit{ifs.Cond, true})
+					pushed++
+				}
+			}
+			// tagless switch statement whose matching cases all leave: afterwards every such case condition is false
+			if sw, ok := s.(*ast.SwitchStmt); ok && sw.Tag == nil {
+				for _, cl := range sw.Body.List {
+					cc := cl.(*ast.CaseClause)
+					if len(cc.List) > 0 && len(cc.Body) > 0 && blockAlwaysLeaves(&ast.BlockStmt{List: cc.Body}) {
+						for _, e := range cc.List {
+							stack = append(stack, condLit{e, true})
+							pushed++
+						}
+					}
+				}
+			}
 		}
 		stack = stack[:len(stack)-pushed]
 	}
@@ -278,15 +297,33 @@ func (c *Ctx) condsAt(fd *ast.FuncDecl, target ast.Node) []condLit {
 				return
 			}
 		case *ast.SwitchStmt:
+			// tagless switch: inside case k, its own condition holds and every earlier case's condition failed
+			pushed := 0
 			for _, cl := range st.Body.List {
 				cc := cl.(*ast.CaseClause)
+				inBody := false
 				for _, b := range cc.Body {
 					if contains(b) {
-						walkList(cc.Body)
-						return
+						inBody = true
+					}
+				}
+				if inBody {
+					if st.Tag == nil && len(cc.List) == 1 {
+						stack = append(stack, condLit{cc.List[0], false})
+						pushed++
+					}
+					walkList(cc.Body)
+					stack = stack[:len(stack)-pushed]
+					return
+				}
+				if st.Tag == nil {
+					for _, e := range cc.List {
+						stack = append(stack, condLit{e, true})
+						pushed++
 					}
 				}
 			}
+			stack = stack[:len(stack)-pushed]
 		case *ast.TypeSwitchStmt:
 			for _, cl := range st.Body.List {
 				cc := cl.(*ast.CaseClause)
